@@ -11,6 +11,8 @@ PARTS_QUICK = [
     ("h/s/q1/v1/", 2),
     ("h/s/q1/v1/o/", 2),
     ("*/s/>/", 3),
+    ("h/s/q1/v1/", 1, "/c"),
+    ("h/a/", 1, "/v1/m"),
 ]
 PARTS_THOROUGH = [
     ("", 7),
@@ -30,6 +32,11 @@ PARTS_THOROUGH = [
     ("h/s/q1/v1//", 3),
     ("h/s/q1/v1/o/c", 2),
     (">/>/>/>/", 3),
+    ("h/s/q1/v1/", 2, "/c"),
+    ("h/s/q1/", 2, "/o/c"),
+    ("h/a/", 2, "/v1/m"),
+    ("h/", 1, "/x/v1/g"),
+    ("", 1, "/s/q1/v1"),
 ]
 
 
@@ -39,15 +46,19 @@ def parts(tier):
 
 def per_part(prop, family, module, func, tier, timeout=None, extra_env=None, expect="confirm", only=None, shrink=0):
     out = []
-    for pre, n in parts(tier):
-        if only is not None and pre not in only:
+    for part in parts(tier):
+        pre, n = part[0], part[1]
+        suf = part[2] if len(part) > 2 else ""
+        if only is not None and pre not in only and not (suf and "SUF" in only):
             continue
         n = max(1, n - shrink)
         env = {"VF_PRE": pre, "VF_N": str(n)}
+        if suf:
+            env["VF_SUF"] = suf
         env.update(extra_env or {})
         tag = ",".join(f"{k[3:].lower()}={v}" for k, v in (extra_env or {}).items())
-        out.append(Obl(f"{family}[{pre!r}+{n}{',' + tag if tag else ''}]", module, func, env=env,
+        out.append(Obl(f"{family}[{pre!r}+{n}{'+' + repr(suf) if suf else ''}{',' + tag if tag else ''}]", module, func, env=env,
                        timeout=timeout or (170 if tier == "quick" else 1200), path_timeout=120,
                        family=family, expect=expect, tier=tier,
-                       bound=f"s = {pre!r} + t, every str t with len(t) <= {n} (all code points)"))
+                       bound=f"s = {pre!r} + t + {suf!r}, every str t with len(t) <= {n} (all code points)"))
     return out
